@@ -157,7 +157,7 @@ def history(draw):
         choices = ["create", "append", "iadd_list", "iadd_cont"]
         if attrs:
             choices += ["set", "set", "set", "get", "set_oob", "get_oob", "inplace", "inplace_idx", "clear_attr", "as_array",
-                        "delete", "set", "append"]
+                        "delete", "set", "append", "copy_entry", "copy_entry", "set_array", "as_array"]
         if draw(st.integers(0, 30)) == 0:
             choices = ["clear_container"]
         op = draw(st.sampled_from(choices))
@@ -190,6 +190,15 @@ def history(draw):
             elif op in ("inplace", "inplace_idx"):
                 ops.append([op, name, draw(st.integers(0, max(n - 1, 0))), draw(st.integers(0, 3)), draw(st.integers(1, 5)),
                             draw(value_desc(typ, arity).filter(lambda vd: model_accepts(vd, typ, arity)))])
+            elif op == "copy_entry":
+                # a[j] = a[i] (a value obtained by reading), then the value read back from j is changed in place
+                ops.append(["copy_entry", name, draw(st.integers(0, max(n - 1, 0))), draw(st.integers(0, max(n - 1, 0))), draw(st.integers(0, 3)), draw(st.integers(1, 5)),
+                            draw(value_desc(typ, arity).filter(lambda vd: model_accepts(vd, typ, arity)))])
+            elif op == "set_array":
+                # the value is a numpy array which the caller changes after the write
+                ops.append(["set_array", name, draw(st.integers(0, max(n - 1, 0))), draw(st.integers(0, 3)),
+                            draw(value_desc(typ, arity).filter(lambda vd: model_accepts(vd, typ, arity) and vd[0] != "scalar"
+                                                               and len(set(type_class(c) for c in vd[1])) == 1)) if arity > 1 else None])
             elif op == "clear_attr":
                 ops.append(["clear_attr", name])
             elif op == "as_array":
@@ -404,6 +413,43 @@ def fn(case, ctx):
             # every OTHER entry must read as before (checked by the read-out); entry i itself is re-synchronised
             val = realise_value(vd)
             sp[i] = val; de[i] = val
+            mdl.data[i] = model_value(vd, mdl.typ, mdl.arity)
+        elif kind == "copy_entry":
+            _, name, i, j, k, d, vd = op
+            if name not in models or n == 0: continue
+            i, j = i % n, j % n
+            mdl = models[name]; sp, de = handles[name]
+            if i == j: continue
+            ctx.label("copy-entry")
+            for a in (sp, de):
+                ok, _ = ctx.call("set:copy-entry", a.__setitem__, j, a[i])     # a[j] = a[i]
+                if not ok: return
+            mdl.data[j] = mdl.get(i)
+            observe(where + " (after a[j] = a[i])")
+            if mdl.typ not in ("str", "bool") and mdl.arity > 1:
+                for a in (sp, de):
+                    try:
+                        x = a[j]
+                        x[k % mdl.arity] = d          # change the value obtained by reading entry j
+                    except Exception:
+                        pass
+                # every entry other than j must read as before (entry i in particular); j is re-synchronised
+                val = realise_value(vd)
+                sp[j] = val; de[j] = val
+                mdl.data[j] = model_value(vd, mdl.typ, mdl.arity)
+        elif kind == "set_array":
+            _, name, i, k, vd = op
+            if name not in models or n == 0 or vd is None: continue
+            mdl = models[name]; sp, de = handles[name]
+            if mdl.arity == 1: continue
+            i = i % n
+            ctx.label("numpy-array-value")
+            for a in (sp, de):
+                arr = np.array(realise_value(vd))
+                ok, _ = ctx.call("set:numpy-array", a.__setitem__, i, arr)
+                if not ok: return
+                if arr.dtype.kind in "ifc":
+                    arr[k % mdl.arity] = arr[k % mdl.arity] + 7      # the caller's array changes after the write
             mdl.data[i] = model_value(vd, mdl.typ, mdl.arity)
         elif kind == "clear_attr":
             name = op[1]
